@@ -40,7 +40,7 @@ COMPONENTS = {
              "dali.driver.serial LubaProtocol/SCIRS232Protocol receive path, DistributorQueue", "asyncio (CPython)"],
     "stub": ["asyncio.wait_for of CPython 3.8-3.11 (transcribed, sim/legacy_asyncio.py) on ~25 % of the asyncio-driver runs", "VirtualLoop", "os/glob/random", "serial_asyncio", "gateway firmware, bus, other masters"],
 }
-PROBES = ["subscriber-raised", "no-permanent-subscriber", "query-timeout", "query-answered", "query-resolved-by-next-frame", "twice-ok", "twice-failed-timeout",
+PROBES = ["gateway-lost-mid-history", "subscriber-raised", "no-permanent-subscriber", "query-timeout", "query-answered", "query-resolved-by-next-frame", "twice-ok", "twice-failed-timeout",
           "twice-failed-mismatch", "twice-failed-backward", "twice-failed-noframe", "dt-context-used",
           "dt-context-expired", "event-decoded-through-map", "unknown-frame", "own-send-interleaved",
           "subscriber-left", "subscriber-joined", "traffic-burst", "explicit-no-frame",
@@ -122,7 +122,16 @@ def gen_traffic(r, driver, n):
         elif k == "unknown":
             v = r.choice([0xA105, 0xA300 | r.randrange(256), 0xCB00 | r.randrange(256),
                           (r.randrange(0xCC, 0xFC) | 1) << 8 | r.randrange(256)])
-            if r.random() < 0.3:
+            x = r.random()
+            if x < 0.3:
+                # a 24-bit special command (0xC1 ...) with whatever parameter byte a foreign master chose,
+                # reserved values included; some of them are send-twice
+                fr = [[24, 0xC10000 | (r.choice([0x00, 0x01, 0x01, 0x02, 0x03, 0x04, 0x05, 0x08, r.randrange(64)]) << 8)
+                       | r.choice([0x00, 0x3F, 0x40, 0x7E, 0x7F, 0x80, 0xFE, 0xFF, r.randrange(256)])]]
+                if r.random() < 0.5:
+                    fr.append(list(fr[0]))
+                items.append({"t_us": t, "frames": fr, "kind": k, "gap2_us": r.choice([14000, 30000])})
+            elif x < 0.5:
                 items.append({"t_us": t, "frames": [[24, 0xFE0000 | r.getrandbits(16) | (1 << 16)]], "kind": k})
             else:
                 items.append({"t_us": t, "frames": [[16, v]], "kind": k})
@@ -148,6 +157,7 @@ def gen_plan(seed, tier="quick"):
     if r.random() < 0.6:
         knobs["inst_map"] = [[r.randrange(64), r.randrange(32), r.choice([0, 1, 2, 3, 4, 6, 31])]
                              for _ in range(r.randrange(1, 5))]
+        knobs["inst_map_late"] = r.random() < 0.4      # handed over empty, filled afterwards
     plan = {"engine": "drvsim", "property": PROP, "driver": driver, "seed": seed, "knobs": knobs,
             "callers": [], "traffic": [], "subs": [], "settle_s": 0.6, "deadline_s": 600}
     if driver != "hasseb":
@@ -170,6 +180,13 @@ def gen_plan(seed, tier="quick"):
         for c in plan["callers"]:
             c["start_us"] = r.randrange(0, span + 1)
     span = max([it["t_us"] for it in plan["traffic"]] + [300000])
+    if driver == "tridonic" and r.random() < 0.15:
+        # the gateway drops out in the middle of the history and comes back: whatever the watcher
+        # remembered (a device type, a pending command) belongs to the old connection
+        plan["loss"] = {"t_us": r.randrange(0, span + 100000), "mode": r.choice(["eof", "oserror"]),
+                        "return_after_us": r.choice([30000, 120000, 400000])}
+        knobs["reconnect_interval"] = 0.05
+        plan["settle_s"] = 1.2
     # in some runs nobody is subscribed from the start: a subscriber may join in
     # the middle of a transaction the watcher is already tracking
     plan["permanent"] = r.random() < 0.6
@@ -225,6 +242,10 @@ def _hooks(plan, ctx):
                 world.loop.at(t0 + (reg_us + 0.37) * 1e-6, do_reg)
             if unreg_us is not None:
                 world.loop.at(t0 + (unreg_us + 0.61) * 1e-6, do_unreg)
+        if plan.get("loss"):
+            ls = plan["loss"]
+            world.loop.at(t0 + (ls["t_us"] + 0.13) * 1e-6,
+                          lambda: rr.dev.lose(ls["mode"], ls["return_after_us"]))
         if plan.get("permanent", True):
             add_sub("S*", None, None)
         for i, s in enumerate(plan.get("subs", [])):
@@ -245,11 +266,34 @@ def judge(rr, ctx):
         V("connect-failed", repr(rr.connect_error))
         return out, {}
     info = {"expected": 0}
-    imap = rr.driver.dev_inst_map
+    imap = getattr(rr.driver, "_verif_inst_map", None) or rr.driver.dev_inst_map
     end_us = rr.world.now_us()
     if drv == "tridonic":
-        reports = [(t, buswatch.classify_tridonic(d)) for t, d in rr.dev.delivered if d[0] in (0x11, 0x12)]
-        emissions, ambiguous = buswatch.reference(reports, imap, end_us=end_us)
+        # one watcher life per connection: what was pending or remembered when the gateway
+        # was found gone is dropped with it (the watch task is cancelled, no report)
+        emissions, ambiguous = [], False
+        gens = sorted(set(rr.dev.delivered_gens))
+        dets = [t for t, _how in rr.dev.detections]
+        for gi, g in enumerate(gens):
+            mine = [(t, d) for (t, d), gg in zip(rr.dev.delivered, rr.dev.delivered_gens) if gg == g]
+            # the watcher of a connection starts when its handshake (two init replies) is through;
+            # what the gateway reported before that is worked off at that moment, back to back
+            inits = [t for t, d in mine if d[0] == 0x01]
+            if len(inits) < 2:
+                continue
+            t_ready = inits[1]
+            reports = [(max(t, t_ready), buswatch.classify_tridonic(d)) for t, d in mine if d[0] in (0x11, 0x12)]
+            seg_end = end_us
+            if gi < len(gens) - 1 or (rr.dev.losses and len(gens) == len(rr.dev.losses)):
+                later = [t for t in dets if not reports or t >= reports[0][0]] if dets else []
+                seg_end = min(later) if later else end_us
+                if reports and seg_end - reports[-1][0] < 1000:
+                    ambiguous = True        # a report and the loss within the same millisecond
+            em, amb = buswatch.reference(reports, imap, end_us=seg_end)
+            emissions += em
+            ambiguous = ambiguous or amb
+        if rr.dev.losses:
+            rr.world.probe("gateway-lost-mid-history")
         if ambiguous:
             rr.world.probe("ambiguous-gap-set-aside")
             return out, {"set_aside": True}
@@ -368,7 +412,7 @@ def _serial_reference(rr, imap):
     dt = 0
     for t, bits, value in getattr(rr.dev, "observed", []):
         f = dali.frame.ForwardFrame(bits, value)
-        c = dali.command.from_frame(f, devicetype=dt, dev_inst_map=imap)
+        c = cmds.decode(f, dt, imap)
         dt = c.param if isinstance(c, cmds.EnableDeviceType) else 0
         ems.append((t, c, None, False, "immediate"))
     return ems
